@@ -109,7 +109,7 @@ theorem setPathData_shape (ts : List (Aff3 α)) (d : String) (adj : UInt8) (cs :
     ∃ x y body, cs = .startPath adj x y :: body ++ [.closeEnd] ∧ ∀ c ∈ body, isDrawing c = true := by
   unfold setPathData at h
   rcases (pathLoop_shape ts adj _ true 0 none d.toList cs (fun c hc => by cases hc) h).1 rfl with ⟨h1, h2⟩ | h'
-  · exact Or.inl ⟨by rw [← String.ofList_toList (s := d), h1]; rfl, h2⟩
+  · exact Or.inl ⟨by rw [← String.ofList_toList (s := d), h1], h2⟩
   · exact Or.inr h'
 
 /-- `ends_once`: exactly one `ClosePathEndPath`, and it is the last call -/
@@ -139,7 +139,7 @@ theorem starts_once (ts : List (Aff3 α)) (d : String) (adj : UInt8) (cs : List 
       cases c <;> simp_all [isDrawing, isStart]
     refine ⟨?_, x, y, rfl⟩
     rw [List.countP_append, List.countP_cons, h0]
-    simp [isStart, List.countP_cons]
+    simp [isStart]
 
 /-- every call other than the first and the last is a drawing call -/
 theorem only_drawing_between (ts : List (Aff3 α)) (d : String) (adj : UInt8) (cs : List (Call α))
@@ -171,7 +171,7 @@ theorem unknown_first_verb (ts : List (Aff3 α)) (adj : UInt8) (c : Char) (rest 
   rw [String.toList_ofList, String.length_ofList]
   have hne : ¬ (c :: rest = ['z']) := by
     intro h; injection h with h1 _; subst h1; cases hc
-  simp only [List.length_cons, pathLoop, hne, ↓reduceIte, hc]
+  simp only [pathLoop, hne, ↓reduceIte, hc]
 
 /-- the empty string is outside the dialect: Go indexes `d[0]` and panics -/
 theorem empty_malformed (ts : List (Aff3 α)) (adj : UInt8) : setPathData ts "" adj = .error .malformed := by
